@@ -1345,7 +1345,7 @@ Lemma exec_from_obs ops : forall s tr bs,
   exec_from s tr ops bs =
   match ops with
   | [] => []
-  | o :: r => obs_of o tr (snd (run_from s (compile s o (hint bs))))
+  | o :: r => obs_of o (hint bs) tr (snd (run_from s (compile s o (hint bs))))
               :: exec_from (fst (run_from s (compile s o (hint bs))))
                            (tr ++ snd (run_from s (compile s o (hint bs)))) r (tl bs)
   end.
@@ -2343,25 +2343,28 @@ Proof.
   apply rel_quiet with (s := s); [exact R | apply qu_same; assumption | exact G4].
 Qed.
 
-Lemma loop_ok s tr m l :
+Lemma loop_ok s tr m l cut :
   Inv s tr -> Rel s tr m -> cur s = None ->
-  cur (fst (run_from s (loop_steps s l))) = None /\
-  accepted (fst (run_from s (loop_steps s l))) tr (snd (run_from s (loop_steps s l))) m.
+  cur (fst (run_from s (loop_steps s l cut))) = None /\
+  accepted (fst (run_from s (loop_steps s l cut))) tr (snd (run_from s (loop_steps s l cut))) m.
 Proof.
   intros I R Cu. unfold loop_steps. rewrite !run_from_app. cbn [fst snd].
   destruct (follow_ok l s tr m I R Cu) as (C1 & (m1 & B1 & R1)).
   pose proof (inv_run_from (follow s l) s tr I) as I1.
   destruct (run_from s (follow s l)) as [s1 e1]. cbn [fst snd] in *.
-  assert (A2 : cur (fst (run_from s1 (rest_steps s1))) = None /\
-               accepted (fst (run_from s1 (rest_steps s1))) (tr ++ e1) (snd (run_from s1 (rest_steps s1))) m1).
-  { unfold rest_steps. destruct (life_of s1).
+  set (rs := if cut then [] else rest_steps s1).
+  assert (A2 : cur (fst (run_from s1 rs)) = None /\
+               accepted (fst (run_from s1 rs)) (tr ++ e1) (snd (run_from s1 rs)) m1).
+  { subst rs. destruct cut.
+    { cbn [run_from fst snd]. split; [exact C1|]. apply accepted_nocb; [rewrite app_nil_r; exact R1 | intros j c a []]. }
+    unfold rest_steps. destruct (life_of s1).
     - cbn [run_from fst snd]. split; [exact C1|]. apply accepted_nocb; [rewrite app_nil_r; exact R1 | intros j c a []].
     - destruct (doall_ok s1 _ m1 I1 R1 C1) as (C2 & m2 & B2 & R2 & _). split; [exact C2|]. exists m2. auto.
     - cbn [run_from fst snd]. split; [exact C1|]. apply accepted_nocb; [rewrite app_nil_r; exact R1 | intros j c a []].
     - cbn [run_from fst snd]. split; [exact C1|]. apply accepted_nocb; [rewrite app_nil_r; exact R1 | intros j c a []]. }
   destruct A2 as (C2 & (m2 & B2 & R2)).
-  pose proof (inv_run_from (rest_steps s1) s1 _ I1) as I2.
-  destruct (run_from s1 (rest_steps s1)) as [s2 e2]. cbn [fst snd] in *.
+  pose proof (inv_run_from rs s1 _ I1) as I2.
+  destruct (run_from s1 rs) as [s2 e2]. cbn [fst snd] in *.
   cbn [run_from].
   destruct (life_step_ok s2 _ m2 SLoopEnd (or_intror (or_intror (or_introl eq_refl))) I2 R2) as (C3 & R3 & N3 & _).
   destruct (step s2 SLoopEnd) as [s3 e3]. cbn [fst snd] in *. rewrite app_nil_r.
@@ -2437,14 +2440,17 @@ Proof.
     destruct (life_step_ok s tr m SStart (or_introl eq_refl) I R) as (C0 & R0 & N0 & O0).
     pose proof (inv_step s tr SStart I) as I0.
     destruct (step s SStart) as [s0 e0] eqn:Es0. cbn [fst snd] in *.
-    destruct (loop_ok s0 (tr ++ e0) m (hint bs) I0 R0 (eq_trans C0 Cu)) as (C1 & (m1 & B1 & R1)).
-    destruct (run_from s0 (loop_steps s0 (hint bs))) as [s1 e1]. cbn [fst snd] in *.
-    rewrite cbrecs_app, (cbrecs_nocb e0 N0). cbn [app]. rewrite B1.
-    apply IH; auto. rewrite app_assoc. exact R1.
+    destruct (loop_ok s0 (tr ++ e0) m (fst (hint bs)) (snd (hint bs)) I0 R0 (eq_trans C0 Cu)) as (C1 & (m1 & B1 & R1)).
+    destruct (run_from s0 (loop_steps s0 (fst (hint bs)) (snd (hint bs)))) as [s1 e1]. cbn [fst snd] in *.
+    assert (G : monitor_from m1 r (exec_from s1 (tr ++ e0 ++ e1) r (tl bs)) = true).
+    { apply IH; auto. rewrite app_assoc. exact R1. }
+    destruct (snd (hint bs)); cbn [monitor_from];
+      rewrite cbrecs_app, (cbrecs_nocb e0 N0); cbn [app]; rewrite B1; exact G.
   - (* the released loop *)
-    destruct (loop_ok s tr m (hint bs) I R Cu) as (C1 & (m1 & B1 & R1)).
-    destruct (run_from s (loop_steps s (hint bs))) as [s1 e1]. cbn [fst snd] in *.
-    rewrite B1. apply IH; auto.
+    destruct (loop_ok s tr m (fst (hint bs)) (snd (hint bs)) I R Cu) as (C1 & (m1 & B1 & R1)).
+    destruct (run_from s (loop_steps s (fst (hint bs)) (snd (hint bs)))) as [s1 e1]. cbn [fst snd] in *.
+    assert (G : monitor_from m1 r (exec_from s1 (tr ++ e1) r (tl bs)) = true) by (apply IH; auto).
+    destruct (snd (hint bs)); cbn [monitor_from]; rewrite B1; exact G.
   - (* wait, then Stop() *)
     rewrite run_from_app in *. destruct (wait_ok s tr m 0 I R Srt) as (A1 & A2 & A3 & A4).
     pose proof (inv_run_from (wait_steps s 0) s tr I) as Iw.
